@@ -616,6 +616,26 @@ pub fn run(args: &Args) -> i32 {
         }
         n = hi;
     }
+    // serial analogue on a pty / an unopenable path
+    {
+        let reps = args.tier.pick(3usize, 40);
+        for k in 0..reps {
+            for scenario in [0usize, 1] {
+                let mut e = Evidence::new();
+                let problems = rt.block_on(crate::serial::serial_client(scenario, k, &mut e));
+                ev.merge(e);
+                ev.eval();
+                ev.count("serial_scripts", 1);
+                for (sig, what) in problems {
+                    // strategy arithmetic belongs to C14
+                    if sig.contains("strategy") || sig.contains("delay") || sig.contains("reset") || sig.contains("after_disconnect") || sig.contains("earlier_than") {
+                        continue;
+                    }
+                    ev.violation(sig, what, json!({"leg": "serial", "scenario": scenario, "k": k}));
+                }
+            }
+        }
+    }
     let meta = Meta {
         property_id: "C13",
         level: "exploration",
